@@ -582,7 +582,9 @@ impl Machine {
         or_frame.prelude.boip = 0;
         or_frame.prelude.biip = 0;
         or_frame.prelude.tr = 0;
-        or_frame.prelude.h = 0;
+        // popping the stub must not truncate the heap below its current
+        // length: the start of the heap holds the preallocated resource error.
+        or_frame.prelude.h = self.machine_st.heap.cell_len();
         or_frame.prelude.b0 = 0;
         or_frame.prelude.attr_var_queue_len = 0;
 
